@@ -488,6 +488,20 @@ def collect_aliases(f):
                     break
             if src.get("k") == "local":
                 al[n["pat"]["id"]] = src["id"]
+        elif n.get("k") == "let" and "init" in n and n["pat"].get("k") == "ptuple" and "els" not in n:
+            # `let (a, b) = match X { P => (x, y), _ => <diverges> };`: a, b stand for x, y
+            init = n["init"]
+            while init.get("k") == "blockexpr" and not init["b"]["stmts"] and "tail" in init["b"]:
+                init = init["b"]["tail"]
+            if init.get("k") == "match":
+                live = [a_ for a_ in init["arms"] if not (a_["body"].get("ty") == "!" or _diverges(a_["body"]))]
+                if len(live) == 1:
+                    t = tail_value(live[0]["body"])
+                    if t.get("k") == "tuple" and len(t["es"]) == len(n["pat"]["subs"]):
+                        for sp_, e_ in zip(n["pat"]["subs"], t["es"]):
+                            e_ = peel(e_)
+                            if sp_.get("k") == "pbind" and not sp_.get("mut") and e_.get("k") == "local":
+                                al[sp_["id"]] = e_["id"]
     # resolve chains
     def root(i, seen=()):
         while i in al and i not in seen:
